@@ -65,6 +65,9 @@ struct World {
   // first kill-accounting xattr aimed at one of them its cgroup.procs / cgroup.events / pids.current are rewritten
   std::set<int> emptyAtAttempt;
   std::set<int> emptied;
+  // record every read-open of cgroup.events with the file's lines (h_kill: the kernelkill branch reads the file afresh and
+  // the model takes that answer from the trace)
+  bool recordEventsReads{false};
 };
 
 inline World g_w;
@@ -279,6 +282,26 @@ static int vk_openat_common(int dirfd, const char* path, int flags, mode_t mode,
     if (p == "cgroup.procs" && (flags & O_ACCMODE) == O_RDONLY) {
       Json::Value e;
       e["ev"] = "procs";
+      e["cg"] = cgOfFd(dirfd);
+      if (fd < 0) {
+        e["lines"] = Json::nullValue;
+      } else {
+        std::string content;
+        char buf[4096];
+        off_t off = 0;
+        ssize_t n;
+        while ((n = ::pread(fd, buf, sizeof(buf), off)) > 0) {
+          content.append(buf, n);
+          off += n;
+        }
+        Json::Value ls(Json::arrayValue);
+        for (auto& l : splitLines(content)) ls.append(l);
+        e["lines"] = ls;
+      }
+      emit(std::move(e));
+    } else if (g_w.recordEventsReads && p == "cgroup.events" && (flags & O_ACCMODE) == O_RDONLY) {
+      Json::Value e;
+      e["ev"] = "events";
       e["cg"] = cgOfFd(dirfd);
       if (fd < 0) {
         e["lines"] = Json::nullValue;
